@@ -70,6 +70,100 @@ def names_in(node):
     return {n.id for n in ast.walk(node) if isinstance(n, ast.Name)}
 
 
+def anchor(prog, rel, qual):
+    """(module, function) for 'f' or 'Class.method'; a method moved to a base class or mixin is
+    found through the MRO."""
+    mod = prog.module(rel)
+    if "." not in qual:
+        return mod, mod.func(qual)
+    cname, mname = qual.split(".", 1)
+    cls = mod.cls(cname)
+    r = prog.find_method(mod, cls, mname)
+    if r is None:
+        raise AnalysisError("anchor method %s vanished from %s (also not found in its base classes)" % (qual, rel))
+    return r[0], r[2]
+
+
+def native_name(v):
+    """`lib.name` or `getattr(lib, "name")` -> "name" """
+    if isinstance(v, ast.Attribute) and isinstance(v.value, ast.Name):
+        return v.attr
+    if isinstance(v, ast.Call) and pf.call_name(v) == "getattr" and len(v.args) >= 2 \
+            and isinstance(v.args[1], ast.Constant) and isinstance(v.args[1].value, str):
+        return v.args[1].value
+    return None
+
+
+def asserted(node):
+    """The expression a CFG node asserts to be true for control to continue normally:
+    `assert c` -> c ;  `if not c: raise` -> c ;  `if c: raise` -> not c (returned as ('not', c)).
+    None for other nodes."""
+    st = node.ast
+    if node.kind == "stmt" and isinstance(st, ast.Assert):
+        return st.test
+    if node.kind == "test" and isinstance(st, ast.If) and not st.orelse and cfgm._raises(st.body):
+        t = st.test
+        if isinstance(t, ast.UnaryOp) and isinstance(t.op, ast.Not):
+            return t.operand
+        return ("not", t)
+    return None
+
+
+def asserted_stmt(st):
+    """same for a statement outside a CFG: -> asserted expression, ('not', expr) or None"""
+    if isinstance(st, ast.Assert):
+        return st.test
+    if isinstance(st, ast.If) and not st.orelse and cfgm._raises(st.body):
+        t = st.test
+        if isinstance(t, ast.UnaryOp) and isinstance(t.op, ast.Not):
+            return t.operand
+        return ("not", t)
+    return None
+
+
+STR_CONSTS = {}
+
+
+def register_str_consts(mod):
+    """module-level `NAME = "literal"` constants may stand for the literal in mode tests"""
+    for k, v in mod.assigns.items():
+        if isinstance(v, ast.Constant) and isinstance(v.value, str):
+            STR_CONSTS[k] = v.value
+
+
+def _str_value(c):
+    if isinstance(c, ast.Constant) and isinstance(c.value, str):
+        return c.value
+    if isinstance(c, ast.Name) and c.id in STR_CONSTS:
+        return STR_CONSTS[c.id]
+    return None
+
+
+def value_depends(fn, expr, param, _seen=None):
+    """Does the value of `expr` depend on the *contents* of parameter `param` (not merely on its
+    shape/ndim/dtype/len), following local assignments flow-insensitively?"""
+    _seen = _seen if _seen is not None else set()
+    skip = set()
+    for n in ast.walk(expr):
+        if isinstance(n, ast.Attribute) and n.attr in ("shape", "ndim", "size", "dtype") and isinstance(n.value, ast.Name):
+            skip.add(id(n.value))
+        if isinstance(n, ast.Call) and pf.call_name(n) == "len" and n.args and isinstance(n.args[0], ast.Name):
+            skip.add(id(n.args[0]))
+    for n in ast.walk(expr):
+        if isinstance(n, ast.Name) and isinstance(n.ctx, ast.Load) and id(n) not in skip:
+            if n.id == param:
+                return True
+            if n.id in _seen:
+                continue
+            _seen.add(n.id)
+            for st, v, kind in assigns_to(fn, n.id):
+                if v is not None and value_depends(fn, v, param, _seen):
+                    return True
+                if kind == "for" and value_depends(fn, st.iter, param, _seen):
+                    return True
+    return False
+
+
 # ----------------------------------------------------------------------------
 # return shapes
 # ----------------------------------------------------------------------------
@@ -365,17 +459,19 @@ def mode_set_of_test(t):
         return out
     if isinstance(t, ast.Compare) and len(t.ops) == 1 and pf.is_self_attr(t.left, "mode"):
         c = t.comparators[0]
-        if isinstance(c, ast.Constant) and isinstance(c.value, str):
+        cv = _str_value(c)
+        if cv is not None:
             if isinstance(t.ops[0], ast.Eq):
-                return {c.value}
+                return {cv}
             if isinstance(t.ops[0], ast.NotEq):
-                return set(MODES) - {c.value}
+                return set(MODES) - {cv}
         if isinstance(c, (ast.Tuple, ast.List, ast.Set)) and isinstance(t.ops[0], (ast.In, ast.NotIn)):
             vals = set()
             for e in c.elts:
-                if not (isinstance(e, ast.Constant) and isinstance(e.value, str)):
+                ev = _str_value(e)
+                if ev is None:
                     return None
-                vals.add(e.value)
+                vals.add(ev)
             return vals if isinstance(t.ops[0], ast.In) else set(MODES) - vals
     return None
 
@@ -535,20 +631,9 @@ def flow_closure(fn, name):
     return seen
 
 
-def cutoff_pairing(fn):
-    """-> dict with
-       ret: (value name, derivative name)
-       stores: list of dict(stmt, role, mask, modes, other)
-       unclassified: zeroing stores under a cutoff mask whose target is neither value nor derivative"""
-    params = set(param_names(fn))
-    rets = [n for n in pf.walk_no_nested(fn) if isinstance(n, ast.Return)]
-    if len(rets) != 1 or not isinstance(rets[0].value, ast.Tuple) or len(rets[0].value.elts) != 2 \
-            or not all(isinstance(e, ast.Name) for e in rets[0].value.elts):
-        raise AnalysisError("%s: expected a single `return <value>, <derivative>` of two names" % pf.qualname(fn))
-    vname, dname = (e.id for e in rets[0].value.elts)
-    vflow = flow_closure(fn, vname)
-    dflow = flow_closure(fn, dname)
-    stores, unclassified = [], []
+def _masked_zero_stores(fn, params):
+    """zeroing stores of fn under a cutoff mask -> list of (stmt, root name, Mask)"""
+    out = []
     for n in pf.walk_no_nested(fn):
         if not (isinstance(n, ast.Assign) and len(n.targets) == 1 and isinstance(n.targets[0], ast.Subscript)
                 and is_zero(n.value)):
@@ -560,12 +645,87 @@ def cutoff_pairing(fn):
         while isinstance(cur, ast.Subscript):
             mask = mask or resolve_mask(fn, cur.slice, params)
             cur = cur.value
-        if mask is None:
-            continue
-        root = pf.base_name(t)
-        in_v, in_d = root in vflow, root in dflow
+        if mask is not None:
+            out.append((n, pf.base_name(t), mask))
+    return out
+
+
+def _bind_call(callee, call, skip_self):
+    """callee parameter -> argument expression of the call"""
+    ps = [a.arg for a in callee.args.posonlyargs + callee.args.args]
+    if skip_self and ps and ps[0] in ("self", "cls"):
+        ps = ps[1:]
+    bound = {}
+    for p, a in zip(ps, call.args):
+        if isinstance(a, ast.Starred):
+            break
+        bound[p] = a
+    for k in call.keywords:
+        if k.arg:
+            bound[k.arg] = k.value
+    return bound
+
+
+def _rename_text(text, mapping):
+    """rewrite an expression text, replacing names by the caller's argument texts"""
+    tree = ast.parse(text, mode="eval")
+
+    class R(ast.NodeTransformer):
+        def visit_Name(self, node):
+            if node.id in mapping:
+                return ast.parse("(%s)" % mapping[node.id], mode="eval").body
+            return node
+    return pf.src(R().visit(tree).body)
+
+
+def cutoff_pairing(fn, resolve=None):
+    """-> dict with
+       ret: (value name, derivative name)
+       stores: list of dict(stmt, site, role, mask, modes, other); `site` is the statement of fn at
+               which the zeroing happens (the store itself, or the call of a helper that zeroes its
+               array arguments in place)
+       unclassified: zeroing stores under a cutoff mask whose target is neither value nor derivative
+    resolve(call) -> (callee FunctionDef, skip_self) for helpers of the same class/module, or None."""
+    params = set(param_names(fn))
+    rets = [n for n in pf.walk_no_nested(fn) if isinstance(n, ast.Return)]
+    if len(rets) != 1 or not isinstance(rets[0].value, ast.Tuple) or len(rets[0].value.elts) != 2 \
+            or not all(isinstance(e, ast.Name) for e in rets[0].value.elts):
+        raise AnalysisError("%s: expected a single `return <value>, <derivative>` of two names" % pf.qualname(fn))
+    vname, dname = (e.id for e in rets[0].value.elts)
+    vflow = flow_closure(fn, vname)
+    dflow = flow_closure(fn, dname)
+    found = []
+    for n, root, mask in _masked_zero_stores(fn, params):
         modes, other = split_conditions(n)
-        rec = {"stmt": n, "root": root, "mask": mask, "modes": modes, "other": other}
+        found.append({"stmt": n, "site": n, "root": root, "mask": mask, "modes": modes, "other": other})
+    # one level of helper extraction: self._apply_cutoff_(f, df, rho, rhocut) zeroing its arguments in place
+    if resolve is not None:
+        for st in pf.walk_no_nested(fn):
+            if not (isinstance(st, ast.Expr) and isinstance(st.value, ast.Call)):
+                continue
+            r = resolve(st.value)
+            if r is None:
+                continue
+            callee, skip_self = r
+            bound = _bind_call(callee, st.value, skip_self)
+            cparams = set(param_names(callee))
+            smodes, sother = split_conditions(st)
+            for n, root, mask in _masked_zero_stores(callee, cparams):
+                arg = bound.get(root)
+                if arg is None or pf.base_name(arg) is None or not isinstance(arg, ast.Name):
+                    continue
+                cut = bound.get(mask.cutoff)
+                if cut is None:
+                    continue
+                mapping = {p: pf.src(a) for p, a in bound.items()}
+                m2 = Mask(_rename_text(mask.source, mapping), mask.summed, pf.src(cut),
+                          _rename_text(mask.text, mapping))
+                cmodes, cother = split_conditions(n)
+                found.append({"stmt": n, "site": st, "root": arg.id, "mask": m2, "modes": smodes & cmodes,
+                              "other": frozenset(sother | cother), "via": callee.name})
+    stores, unclassified = [], []
+    for rec in found:
+        in_v, in_d = rec["root"] in vflow, rec["root"] in dflow
         if in_v and not in_d:
             rec["role"] = "value"
             stores.append(rec)
@@ -586,8 +746,11 @@ def _cutoff_ordering(chk, rule, rel, where, fn, facts):
     vname, dname = facts["ret"]
     outflow = flow_closure(fn, vname) | flow_closure(fn, dname)
     for root in sorted({r["root"] for r in facts["stores"]}):
-        zstores = [r["stmt"] for r in facts["stores"] if r["root"] == root]
+        zstores = [r["site"] for r in facts["stores"] if r["root"] == root]
         znodes = {g.node_of(z).id for z in zstores if g.node_of(z) is not None}
+        # a helper call that zeroes several arrays is a zeroing site for each of them
+        znodes |= {g.node_of(r["site"]).id for r in facts["stores"]
+                   if r["site"] is not r["stmt"] and g.node_of(r["site"]) is not None}
         consumers = []
         for n in g.nodes:
             st = n.ast
@@ -638,9 +801,20 @@ def check_cutoff_pairing(chk, prog, targets, rule="cutoff-pair"):
     """Rule shared by C04 (rule 4) and C08 (rule 2); targets: ((relpath, class name), ...)."""
     for rel, cname in targets:
         mod = prog.module(rel)
-        fn = mod.func("%s.__call__" % cname)
+        register_str_consts(mod)
+        cls = mod.cls(cname)
+        fmod, fn = anchor(prog, rel, "%s.__call__" % cname)
         where = "%s.__call__" % cname
-        facts = cutoff_pairing(fn)
+
+        def resolve(call, mod=mod, cls=cls, fmod=fmod):
+            f = call.func
+            if isinstance(f, ast.Attribute) and isinstance(f.value, ast.Name) and f.value.id in ("self", "cls"):
+                r = prog.find_method(mod, cls, f.attr)
+                return (r[2], True) if r else None
+            if isinstance(f, ast.Name) and f.id in fmod.functions:
+                return (fmod.functions[f.id], False)
+            return None
+        facts = cutoff_pairing(fn, resolve)
         for rec in facts["unclassified"]:
             raise AnalysisError("%s: zeroing store `%s` under a cutoff mask targets neither the value nor "
                                      "the derivative data flow" % (where, pf.src(rec["stmt"])))
